@@ -1,3 +1,237 @@
 package main
 
-func c15E2E(args []string) {}
+// C15 end to end: real mrp processes on a real pipestance directory.
+//
+//	vh c15 e2e <dir> <seed>     <dir>/bin/mrp, <dir>/jobmanagers, <dir>/adapters exist
+//
+// Prints one line per scenario: ok <name> <detail> | FAIL <class> <detail>.
+// Only kinds are observed: exit status, whether the process is still running,
+// whether _lock / _finalstate exist - never message text.
+
+import (
+	"context"
+	"fmt"
+	"os"
+	"os/exec"
+	"path/filepath"
+	"strings"
+	"syscall"
+	"time"
+
+	"verifharness/internal/hx"
+)
+
+const c15SlowPy = `#!/usr/bin/env python3
+import json, os.path, sys, time
+def journal(md, prefix, name, content):
+    with open(os.path.join(md, "_" + name), "w") as f:
+        f.write(content)
+    with open(prefix + name, "w") as f:
+        f.write(content)
+md, prefix = sys.argv[2], sys.argv[4] + "."
+try:
+    journal(md, prefix, "log", "start\n")
+    args = json.load(open(os.path.join(md, "_args")))
+    time.sleep(args.get("delay") or 0)
+    json.dump({"n": args.get("delay")}, open(os.path.join(md, "_outs"), "w"))
+    journal(md, prefix, "complete", "complete\n")
+except Exception as ex:
+    journal(md, prefix, "errors", str(ex))
+`
+
+func c15Lib(ft, comment, extra string, factor string) string {
+	return comment + "filetype " + ft + `;
+
+` + comment + `stage SLOW(
+    in  int     delay,
+    in  int     factor,
+    in  ` + ft + `[] reads,
+    out int     n,
+    src exec    "slow.py",
+)
+` + extra + `
+pipeline P(
+    in  int     delay,
+    in  ` + ft + `[] reads,
+    out int     n,
+)
+{
+    call SLOW(
+        delay  = self.delay,
+        factor = ` + factor + `,
+        reads  = self.reads,
+    )
+
+    return (
+        n = SLOW.n,
+    )
+}
+`
+}
+
+type c15Mrp struct {
+	dir, work, lib string
+}
+
+func (m *c15Mrp) cmd(ctx context.Context, psid string, extra ...string) *exec.Cmd {
+	args := append([]string{"inv.mro", psid, "--localcores=2", "--localmem=2", "--disable-ui"}, extra...)
+	c := exec.CommandContext(ctx, filepath.Join(m.dir, "bin", "mrp"), args...)
+	c.Dir = m.work
+	c.Env = append(os.Environ(), "MROPATH="+m.lib, "PATH="+m.lib+":"+os.Getenv("PATH"))
+	return c
+}
+
+// run to completion (or timeout): exit code, -1 if it had to be killed
+func (m *c15Mrp) run(psid string, timeout time.Duration, extra ...string) int {
+	ctx, cancel := context.WithTimeout(context.Background(), timeout)
+	defer cancel()
+	c := m.cmd(ctx, psid, extra...)
+	err := c.Run()
+	if ctx.Err() != nil {
+		return -1
+	}
+	if err == nil {
+		return 0
+	}
+	if ee, ok := err.(*exec.ExitError); ok {
+		return ee.ExitCode()
+	}
+	return -2
+}
+
+func (m *c15Mrp) exists(psid, name string) bool {
+	_, err := os.Stat(filepath.Join(m.work, psid, name))
+	return err == nil
+}
+
+func (m *c15Mrp) waitFor(psid, name string, d time.Duration) bool {
+	for end := time.Now().Add(d); time.Now().Before(end); time.Sleep(50 * time.Millisecond) {
+		if m.exists(psid, name) {
+			return true
+		}
+	}
+	return false
+}
+
+func (m *c15Mrp) write(rel, body string, mode os.FileMode) {
+	p := filepath.Join(m.work, rel)
+	os.MkdirAll(filepath.Dir(p), 0o755)
+	if err := os.WriteFile(p, []byte(body), mode); err != nil {
+		panic(err)
+	}
+}
+
+func c15E2E(args []string) {
+	m := &c15Mrp{dir: args[0]}
+	m.work = filepath.Join(m.dir, "work")
+	m.lib = filepath.Join(m.work, "lib")
+	os.RemoveAll(m.work)
+	w := hx.Out
+	say := func(format string, a ...interface{}) { fmt.Fprintf(w, format+"\n", a...); w.Flush() }
+	inv := func(delay int) string {
+		return fmt.Sprintf("@include \"lib.mro\"\n\ncall P(\n    delay = %d,\n    reads = [\"a.fastq\"],\n)\n", delay)
+	}
+	m.write("lib/slow.py", c15SlowPy, 0o755)
+	m.write("lib/lib.mro", c15Lib("fastq", "", "", "1"), 0o644)
+	m.write("inv.mro", inv(4), 0o644)
+
+	// ---- scenario 1: a second instance against a live lock; --inspect
+	first := m.cmd(context.Background(), "psA")
+	if err := first.Start(); err != nil {
+		say("FAIL e2e_setup cannot start mrp: %v", err)
+		return
+	}
+	if !m.waitFor("psA", "_lock", 20*time.Second) {
+		say("FAIL e2e_setup the first instance never wrote _lock")
+		first.Process.Kill()
+		return
+	}
+	rc := m.run("psA", 20*time.Second)
+	alive := first.ProcessState == nil && syscall.Kill(first.Process.Pid, 0) == nil
+	if rc > 0 && alive && m.exists("psA", "_lock") {
+		say("ok second_instance_refused exit=%d first still running and holding _lock", rc)
+	} else {
+		say("FAIL second_instance_attached_to_live_pipestance exit=%d first_alive=%v lock=%v", rc, alive, m.exists("psA", "_lock"))
+	}
+	rc = m.run("psA", 2*time.Second, "--inspect")
+	if rc == -1 {
+		say("ok inspect_admitted read-only instance attached while the pipestance is locked (still serving after 2s)")
+	} else {
+		say("FAIL readonly_attach_refused --inspect exited with %d against a live pipestance", rc)
+	}
+	err := first.Wait()
+	if err == nil && m.exists("psA", "_finalstate") && !m.exists("psA", "_lock") {
+		say("ok first_instance_completed undisturbed by the refused and the read-only instance")
+	} else {
+		say("FAIL first_instance_disturbed err=%v finalstate=%v lock=%v", err, m.exists("psA", "_finalstate"), m.exists("psA", "_lock"))
+	}
+
+	// ---- scenario 2: interrupted pipestance, re-attach with edited library
+	m.write("inv.mro", inv(2), 0o644)
+	first = m.cmd(context.Background(), "psB")
+	first.Start()
+	if !m.waitFor("psB", "_lock", 20*time.Second) || !m.waitFor("psB", "P/SLOW/fork0/chnk0/_jobinfo", 20*time.Second) {
+		say("skip interrupted_setup the job did not start in time")
+		first.Process.Kill()
+		first.Wait()
+		return
+	}
+	first.Process.Signal(syscall.SIGINT)
+	first.Wait()
+	if m.exists("psB", "_lock") {
+		say("FAIL lock_left_behind_after_sigint _lock still present after the holder handled SIGINT")
+		os.Remove(filepath.Join(m.work, "psB", "_lock"))
+	} else {
+		say("ok lock_released_on_sigint")
+	}
+	if m.exists("psB", "_finalstate") {
+		say("skip interrupted_setup pipestance already complete")
+	}
+	// semantic edit of the library: an argument value inside the pipeline
+	m.write("lib/lib.mro", c15Lib("fastq", "", "", "2"), 0o644)
+	rc = m.run("psB", 30*time.Second)
+	if rc > 0 && !m.exists("psB", "_lock") && !m.exists("psB", "_finalstate") {
+		say("ok semantic_edit_refused exit=%d, pipestance left unlocked and unfinished", rc)
+	} else {
+		say("FAIL e2e_semantic_edit_accepted exit=%d lock=%v finalstate=%v", rc, m.exists("psB", "_lock"), m.exists("psB", "_finalstate"))
+	}
+	// a second semantic edit: parameter type
+	m.write("lib/lib.mro", strings.Replace(c15Lib("fastq", "", "", "1"), "in  int     factor", "in  float   factor", 1), 0o644)
+	rc = m.run("psB", 30*time.Second)
+	if rc > 0 && !m.exists("psB", "_lock") && !m.exists("psB", "_finalstate") {
+		say("ok semantic_retype_refused exit=%d", rc)
+	} else {
+		say("FAIL e2e_semantic_retype_accepted exit=%d lock=%v finalstate=%v", rc, m.exists("psB", "_lock"), m.exists("psB", "_finalstate"))
+	}
+	// reformatting the invocation file itself (the byte comparison with _invocation)
+	m.write("lib/lib.mro", c15Lib("fastq", "", "", "1"), 0o644)
+	m.write("inv.mro", strings.Replace(inv(2), "    delay = 2,", "    delay =   2,  # two seconds", 1), 0o644)
+	rc = m.run("psB", 30*time.Second)
+	if rc == 0 {
+		say("ok invocation_reformat_accepted")
+	} else {
+		say("FAIL cosmetic_refused_invocation_file_text exit=%d: the invocation file with changed spacing and a comment is refused (bytes compared with _invocation)", rc)
+	}
+	m.write("inv.mro", inv(2), 0o644)
+	if m.exists("psB", "_finalstate") {
+		say("skip cosmetic_library_edit pipestance already complete")
+		return
+	}
+	// cosmetic edit of the library: comments, file type renamed (used as T[]),
+	// an unused stage added, declarations moved to another included file
+	m.write("lib/types.mro", "# file types\nfiletype fq;\n", 0o644)
+	body := c15Lib("fq", "# a comment\n", "\nstage UNUSED(\n    in  int x,\n    src exec \"slow.py\",\n)\n", "1")
+	body = "@include \"types.mro\"\n\n" + strings.Replace(body, "filetype fq;\n", "", 1)
+	m.write("lib/lib.mro", body, 0o644)
+	rc = m.run("psB", 120*time.Second)
+	if rc == 0 && m.exists("psB", "_finalstate") && !m.exists("psB", "_lock") {
+		say("ok cosmetic_edit_accepted re-attached and completed")
+	} else {
+		logb, _ := os.ReadFile(filepath.Join(m.work, "psB", "_log"))
+		tail := strings.Split(strings.TrimSpace(string(logb)), "\n")
+		if len(tail) > 6 {
+			tail = tail[len(tail)-6:]
+		}
+		say("FAIL e2e_cosmetic_edit_refused exit=%d finalstate=%v lock=%v log: %s", rc, m.exists("psB", "_finalstate"), m.exists("psB", "_lock"), strings.Join(tail, " | "))
+	}
+}
